@@ -14,6 +14,8 @@ require (
 	github.com/ontio/ontology-crypto v1.0.9
 	github.com/ontio/ontology-eventbus v0.9.1
 	github.com/polynetwork/poly v0.0.0
+	github.com/polynetwork/ripple-sdk v0.0.0-20220424031403-3947f2e7636c
+	github.com/rubblelabs/ripple v0.0.0-20220222071018-38c1a8b14c18
 	github.com/switcheo/tendermint v0.34.14-2
 	github.com/syndtr/goleveldb v1.0.1-0.20200815110645-5c35d600f0ca
 	github.com/tendermint/tendermint v0.33.7
@@ -93,7 +95,6 @@ require (
 	github.com/phoreproject/bls v0.0.0-20200525203911-a88a5ae26844 // indirect
 	github.com/pkg/errors v0.9.1 // indirect
 	github.com/pmezard/go-difflib v1.0.0 // indirect
-	github.com/polynetwork/ripple-sdk v0.0.0-20220424031403-3947f2e7636c // indirect
 	github.com/prometheus/client_golang v1.10.0 // indirect
 	github.com/prometheus/client_model v0.2.0 // indirect
 	github.com/prometheus/common v0.18.0 // indirect
@@ -101,7 +102,6 @@ require (
 	github.com/prometheus/tsdb v0.7.1 // indirect
 	github.com/renlulu/gozilliqa-sdklegacy v0.0.0-20220127085552-852a2675dc93 // indirect
 	github.com/rs/zerolog v1.18.0 // indirect
-	github.com/rubblelabs/ripple v0.0.0-20220222071018-38c1a8b14c18 // indirect
 	github.com/shirou/gopsutil v2.20.5-0.20200531151128-663af789c085+incompatible // indirect
 	github.com/spf13/afero v1.2.1 // indirect
 	github.com/spf13/cast v1.3.0 // indirect
